@@ -478,6 +478,63 @@ func main() {
 			e.Bool("csNormalizesInvalid", norm, "toLowerIfCaseInsensitive: the case-sensitive branch replaces invalid UTF-8 (same fact as C11's)")
 		}
 
+		// ---- the configuration path: IngestorConfig.setDefaults and NewIngestor
+		if cf, err := r.Load("proxyapi/ingestor_config.go"); err != nil {
+			e.Missing("setDefaultsAssigns", err)
+		} else if fd := cf.Func("IngestorConfig", "setDefaults"); fd == nil {
+			e.Missing("setDefaultsAssigns", "setDefaults not found")
+		} else {
+			var evs []string
+			var walk func(list []ast.Stmt, cond string)
+			walk = func(list []ast.Stmt, cond string) {
+				for _, st := range list {
+					switch x := st.(type) {
+					case *ast.IfStmt:
+						c := cf.Render(x.Cond)
+						if cond != "" {
+							c = cond + " && " + c
+						}
+						walk(x.Body.List, c)
+						if x.Else != nil {
+							evs = append(evs, "else after "+c)
+						}
+					case *ast.AssignStmt:
+						evs = append(evs, cond+": "+cf.Render(x))
+					case *ast.IncDecStmt:
+						evs = append(evs, cond+": "+cf.Render(x))
+					}
+				}
+			}
+			walk(fd.Body.List, "")
+			e.Strs("setDefaultsAssigns", evs, "IngestorConfig.setDefaults: every assignment with the condition it is under")
+		}
+		for _, kv := range [][2]string{{"defaultSearchTimeout", "DefaultSearchTimeout"}, {"defaultExportTimeout", "DefaultExportTimeout"}, {"ingestorMaxInflightBulks", "IngestorMaxInflightBulks"}} {
+			if v, err := r.ConstInt("consts", kv[1]); err != nil {
+				e.Missing(kv[0], err)
+			} else {
+				e.Int(kv[0], v, "consts."+kv[1])
+			}
+		}
+		if nf, err := r.Load("proxyapi/ingestor.go"); err != nil {
+			e.Missing("newIngestorSteps", err)
+		} else if fd := nf.Func("", "NewIngestor"); fd == nil {
+			e.Missing("newIngestorSteps", "NewIngestor not found")
+		} else {
+			var evs []string
+			if len(fd.Body.List) > 0 {
+				if es, ok := fd.Body.List[0].(*ast.ExprStmt); ok {
+					evs = append(evs, nf.Render(es.X))
+				}
+			}
+			ast.Inspect(fd.Body, func(n ast.Node) bool {
+				if c, ok := n.(*ast.CallExpr); ok && nf.Render(c.Fun) == "bulk.NewIngestor" {
+					evs = append(evs, nf.Render(c))
+				}
+				return true
+			})
+			e.Strs("newIngestorSteps", evs, "NewIngestor: its first statement and how the bulk ingestor is built")
+		}
+
 		// ---- where a processor gets its drifts from: constructor parameters, field initialisers, every later
 		// assignment to the two fields (any method), and what getProcessor does with a new / a pooled processor
 		if pf2, err := r.Load("proxy/bulk/processor.go"); err == nil {
